@@ -4,6 +4,7 @@
 import TemporalModel.Lemmas.DurationLemmas
 import TemporalModel.Props.C07
 import TemporalModel.Lemmas.OptionLemmas
+import TemporalModel.Lemmas.SplitLemmas
 namespace TemporalModel
 open Dur
 
@@ -162,6 +163,69 @@ example : (Dur.new ⟨4294967296, 0, 0, 0, 0, 0, 0, 0, 0, 0⟩).isOk = false := 
 example : (Dur.new ⟨0, 0, 0, 0, 0, 0, 9007199254740991, 999, 999, 2000⟩).isOk = false := by decide
 example : (Dur.new ⟨0, 0, 0, 0, 0, 0, 9007199254740991, 999, 999, 999⟩).isOk = true := by decide
 
+/-- **The "nothing to do" shortcut of `Duration::round` is only a shortcut.** Whenever its condition holds - rounding
+to nanoseconds with increment 1, the largest unit the duration already has, no calendar units, and every field below
+that unit already balanced (|hours| < 24, |minutes|, |seconds| < 60, sub-second fields < 1000) - the general path
+(exact total, rounded, re-balanced) returns the very same duration: the thresholds of the condition are exactly those
+under which re-balancing changes nothing (P1DT24H is re-balanced to P2D, which is why `|hours| < 24` is strict).
+For fields a double holds exactly. -/
+theorem C09_noop_shortcut_sound (d : Dur) (o : Resolved) (hv : d.isValid = true)
+    (hs : ∀ f ∈ d.fields, (f.natAbs : Int) ≤ 9007199254740992) (hnoop : d.roundIsNoop o) :
+    d.roundNoRelSlow o = .ok d := by
+  obtain ⟨⟨hsm, hinc⟩, hL, hcal, hh, hmi, hse, hms, hus, hns⟩ := hnoop
+  have hcal' : d.years = 0 ∧ d.months = 0 ∧ d.weeks = 0 := by
+    simp only [Bool.not_not, Bool.and_eq_true, decide_eq_true_eq] at hcal
+    exact ⟨hcal.1.1, hcal.1.2, hcal.2⟩
+  have hh' : (d.hours.natAbs : Int) < 24 := by
+    simp only [Bool.not_eq_true', decide_eq_false_iff_not, ge_iff_le, Nat.not_le] at hh; omega
+  have hvs := (valid_iff d).mp hv
+  have hdays : (d.days.natAbs : Int) ≤ 9007199254740992 := hs d.days (by simp [Dur.fields])
+  have hsat : F64.toI64Sat d.days = d.days := by
+    unfold F64.toI64Sat clamp; split <;> (try split) <;> omega
+  have hbal := timeFromNormalized_balanced d hv hcal' ⟨hh', by omega, by omega, by omega, by omega, by omega⟩ hs
+  have hLcal : o.largest.isCalendarUnit = false := by
+    rw [hL]; unfold Dur.defaultLargestUnit
+    simp only [hcal'.1, hcal'.2.1, hcal'.2.2, ne_eq, not_true_eq_false, if_false]
+    repeat (first | rfl | split)
+  have hn : normChecked (d.timeNs + F64.toI64Sat d.days * 86400000000000) = .ok d.totalNs := by
+    rw [hsat]
+    have e : d.timeNs + d.days * 86400000000000 = d.totalNs := by simp only [Dur.totalNs]; omega
+    rw [e]
+    unfold normChecked
+    rw [if_neg]
+    unfold Dur.MAX_TIME_DURATION
+    have := hvs.2.2.2.2
+    omega
+  have hn2 : normChecked d.totalNs = .ok d.totalNs := by
+    unfold normChecked; rw [if_neg]; unfold Dur.MAX_TIME_DURATION; have := hvs.2.2.2.2; omega
+  -- rounding to 1 ns changes nothing
+  have hr : RoundI128.round d.totalNs 1 o.mode = d.totalNs := by
+    have := C07_multiple_fixed d.totalNs 1 o.mode (by decide)
+    simpa using this
+  have hnr : normRound d.totalNs 0 o = .ok (0, d.totalNs) := by
+    unfold normRound
+    rw [hsm]
+    simp only [TUnit.asNanoseconds, hinc, Int.mul_one, Out.bind_ok, ne_eq, not_true_eq_false,
+      false_and, if_false, Out.pure_eq_ok]
+    have h1 : ((1 : Nat) : Int) = 1 := rfl
+    rw [h1, hr, hn2]
+    rfl
+  have c1 : ¬ ((!(decide (d.years = 0) && decide (d.months = 0) && decide (d.weeks = 0))) = true ∨
+      o.largest.isCalendarUnit = true) := by
+    simp [hcal'.1, hcal'.2.1, hcal'.2.2, hLcal]
+  have c2 : ¬ (o.smallest.isCalendarUnit = true) := by rw [hsm]; decide
+  have hz : Dur.new ⟨0, 0, 0, 0, 0, 0, 0, 0, 0, 0⟩ = .ok ⟨0, 0, 0, 0, 0, 0, 0, 0, 0, 0⟩ := by decide
+  have hsat0 : F64.toI64Sat 0 = 0 := by decide
+  unfold Dur.roundNoRelSlow
+  dsimp only
+  rw [if_neg c1, if_neg c2, hn]
+  simp only [Out.bind_ok, hnr, hz, hsat0, Int.zero_mul, Int.add_zero, hn2, hL]
+  exact hbal
+
+/-- The shortcut condition is tight: with an hours field of exactly 24 the general path re-balances. -/
+example : Dur.roundNoRelSlow ⟨0, 0, 0, 1, 24, 0, 0, 0, 0, 0⟩ ⟨.day, .nanosecond, 1, .halfExpand⟩ =
+    .ok ⟨0, 0, 0, 2, 0, 0, 0, 0, 0, 0⟩ := by decide +kernel
+
 end TemporalModel
 
 #print axioms TemporalModel.C09_valid_iff
@@ -175,3 +239,4 @@ end TemporalModel
 #print axioms TemporalModel.C09_add_exact
 #print axioms TemporalModel.C09_add_comm
 #print axioms TemporalModel.C09_total_exact
+#print axioms TemporalModel.C09_noop_shortcut_sound
